@@ -10,24 +10,25 @@ TRUST = ('Trusted base: clang 14 parser/sema as the reading of the source; the l
 
 # rules added during the robustness / second seeding rounds (appended to the decided clauses)
 EXTRA = {
-    'C18': 'rejection outside the domain and the number of recorded points as boolean functions of the loop\'s tests; Inverse_Transform_Sampling / Sample_Gauss inherit C02 / C07.d',
+    'C02': 'accuracy certificate of the accepting test (C02.f)',
+    'C18': 'the engine is never copied on its way to a draw (std::bind without std::ref, by-value lambda captures); rejection outside the domain and the number of recorded points as boolean functions of the loop\'s tests; Inverse_Transform_Sampling / Sample_Gauss inherit C02 / C07.d',
     'C17': 'the executed set of (component, l_hat, m_hat) terms of the vector spherical harmonics; Inv_Erf inherits C02\'s obligations about Find_Root',
-    'C16': 'rotations about a general axis inherit C04\'s obligations about Vector::Norm/Normalize/Normalized',
+    'C16': 'special axes tested in front of Rodrigues\' formula return the same rotation (sample axes with components 0, 2, -3); rotations about a general axis inherit C04\'s obligations about Vector::Norm/Normalize/Normalized',
     'C13': 'the spherical overload inherits C16\'s obligations about Spherical_Coordinates(r,theta,phi)',
-    'C11': 'the bracketing triple stays ordered (middle point strictly between the outer ones) on every path, decided on a finite set of placements of the points',
-    'C09': 'search phases written with std::lower_bound/upper_bound are classified by the segment convention they implement',
-    'C05': 'the row operation of the elimination covers every column of the work array; the pivot may be read into a local only after the exchange',
-    'C01': 'every returning path of Interpolate evaluates the segment polynomial (shortcuts only at exactly tested points)',
-    'C04': 'size invariant of Vector (components.size()==dimension after every writer) and copy completeness of the copy constructors / operator= of Vector and Matrix (every member copied on every path)',
-    'C06': 'GammaP+GammaQ=1 as an identity of terms on every pair of branches; no history-carrying function-local state in the gamma family (exact caches exempt)',
+    'C11': 'the value stored for a moved simplex vertex is the objective at that row (the argument array equals the row element by element, from the loop summary); the bracketing triple stays ordered (middle point strictly between the outer ones) on every path, decided on a finite set of placements of the points',
+    'C09': 'C09.f the cached search reads the table next to the cached index only for arguments Locate keeps inside the domain (concrete table, call-site path conditions); search phases written with std::lower_bound/upper_bound are classified by the segment convention they implement',
+    'C05': 'C05.e Determinant keeps no state in the object, or every member that can change the entries (also through a mutable reference it hands out) resets it; the row operation of the elimination covers every column of the work array; the pivot may be read into a local only after the exchange',
+    'C01': 'data-dependent alternatives of the Steffen slope stay inside the monotonicity box on a sample table of secants (zeros, both signs, 1e-20..1e6); every returning path of Interpolate evaluates the segment polynomial (shortcuts only at exactly tested points)',
+    'C04': 'block (r,c) of the block constructor lands at the prefix sums of heights/widths (running offsets by closed form, 3x3 layout with distinct prefix sums); multi-path Norm on small concrete objects; size invariant of Vector (components.size()==dimension after every writer) and copy completeness of the copy constructors / operator= of Vector and Matrix (every member copied on every path)',
+    'C06': 'C06.k the starting value of the Inv_GammaP iteration is non-decreasing in p on a (p,a) grid; GammaP+GammaQ=1 as an identity of terms on every pair of branches; no history-carrying function-local state in the gamma family (exact caches exempt)',
     'C07': 'the tabulated KDE value is the kernel sum divided by bandwidth times the total weight',
     'C08': 'cached state of the integral/extremum queries: every writer of an input of the cached value (transitively through in-class helpers) touches the cache',
     'C10': 'every field the domain guard of Locate reads is computed after the abscissae received their unit factor; Export_Table checks the length of every row; an order guard written with std::adjacent_find',
-    'C12': 'the rule builder and the three integrators keep no history-carrying local state (exact caches exempt)',
-    'C14': 'the bin of a Vegas sample point is the integer part of its own stratified coordinate; every value Miser writes into its mean is the mean of the box\'s own samples or the fraction-weighted mean of its two halves',
+    'C12': 'every returning path of Integrate_Gauss_Legendre(func,a,b,n) builds the rule for (n,a,b) and delegates (only a==b may return 0); the rule builder and the three integrators keep no history-carrying local state (exact caches exempt)',
+    'C14': 'C14.a per call site of Vegas in Integrate_MC (a continuation run with init>0 is undecided); the bin of a Vegas sample point is the integer part of its own stratified coordinate; every value Miser writes into its mean is the mean of the box\'s own samples or the fraction-weighted mean of its two halves',
     'C15': 'QR and the eigen routines inherit the obligations of C04 about Norm/Normalize/products/block constructor; C15.a/b/c are decided on normal forms of object-valued terms (reflector I-2uu^T, one QR sweep incl. early-continue paths, one QR iteration and its convergence measure)',
-    'C19': 'Range written with a precomputed length is evaluated as a closed form on the complete domain min,max in [-40,40], stepsize 1..40',
-    'C20': 'Count_Lines counts every line unconditionally; Export/Import element and unit terms are evaluated in the loop state',
+    'C19': 'Range (strided loops summarised, a branch through the function itself unfolded once, std::reverse) is evaluated as a closed form on the complete domain min,max in [-40,40], stepsize 1..40',
+    'C20': 'a container overload of In_Units may hand the input back only where the unit factor is 1 and no rounding is requested; Count_Lines counts every line unconditionally; Export/Import element and unit terms are evaluated in the loop state',
 }
 
 # property -> (technique, decided clauses, not decided clauses)
@@ -119,8 +120,10 @@ CLAIMS = {
             'C02.a reversed brackets enter the iteration with exchanged ends and their own values; C02.b the function is evaluated only at the two ends, at the midpoint and at '
             'Ridders\' point x3+(x3-x1)sgn(f1-f2)f3/sqrt(f3^2-f1f2) built from values taken at x1,x2,x3; C02.c every re-bracketing branch keeps f_i=F(x_i) and is selected by a '
             'sign difference of exactly the two values that become (f1,f2); C02.d NaN ends exit, f(l)f(r)>0 exits, an exact zero at an end is returned as is; '
-            'C02.e the previous-iterate variable starts at a constant sentinel, the stopping test is |x4-previous|<accuracy or f(x4)==0',
-            'that the returned point is within xAccuracy of a sign change (the stopping test compares successive iterates), exactness on linear functions to rounding, the 50-iteration fall-through'),
+            'C02.e a previous-iterate variable, if the stopping test has one, starts at a constant sentinel; the loop returns on a distance test against the accuracy or on f(x4)==0; '
+            'C02.f what the accepting test certifies: the distance compared with xAccuracy is the width of the maintained bracket (f1 f2<0) and the returned point lies in it '
+            '(intermediate value theorem; a test between successive iterates certifies nothing - that was the pinned tree, repaired by a2733ce)',
+            'that the bracket shrinks below the accuracy within the 50 iterations for every function and accuracy (convergence), exactness on linear functions to rounding'),
     'C07': ('symbolic differentiation/limits of the extracted closed forms (sympy), sum summaries of the discrete families, wiring checks, dependency on C06 rules',
             'C07.a for uniform, normal, exponential, Maxwell-Boltzmann and chi-square: d/dx CDF == PDF on the support, the PDF vanishes exactly on the constant CDF branches, '
             'CDF limits 0 and 1; C07.b CDF_Binomial = sum PMF, CDF_Poisson = max(GammaQ(mu,n+1),0), Inv_CDF_Poisson, PMF_Poisson; C07.c Poisson (log-)likelihoods single-bin and '
